@@ -92,6 +92,21 @@ def _removes_pair(prog, g, list_f, map_f, seen):
     return False
 
 
+def _holds_plans(prog, ctype, fixture=False):
+    """is this LRUCache instantiation one of the transform-plan caches (its value type names a class of the plan family)?
+    An LRU cache of something else is not the subject of C10."""
+    from .rules_state import plan_family
+    fam = getattr(prog, "_plan_family_cache", None)
+    if fam is None:
+        fam = plan_family(prog)
+        prog._plan_family_cache = fam
+    if fixture:
+        return True
+    m = re.search(r"LRUCache<(.*)>", ctype)
+    inner = m.group(1) if m else ctype
+    return any(re.search(r"(^|[\s<,(*&:])%s($|[\s>,)*&])" % re.escape(c.rsplit("::", 1)[-1]), inner) for c in fam)
+
+
 def rule_K1(prog, fixture=False):
     res = RuleResult("K1", "in create_fft_plan/create_rfft_plan the key of every cache operation, the factory argument and the "
                            "small-plan argument are the unmodified length parameter; the value put into the cache is the plan the "
@@ -105,6 +120,7 @@ def rule_K1(prog, fixture=False):
         ops = []
         for n in f.walk():
             if n.is_call() and n.callee and n.callee.get("cls", "").startswith("dsplib::LRUCache<") and n.k == "CXXMemberCallExpr" \
+                    and _holds_plans(prog, n.callee.get("cls", ""), fixture) \
                     and (_short(n.callee.get("qn")) in CACHE_METHODS or (n.call_args() and _short(n.callee.get("qn")) not in ("size", "clear", "empty"))):
                 ops.append((n, _short(n.callee.get("qn"))))
         if ops:
@@ -485,7 +501,7 @@ def rule_K3(prog, fixture=False):
     if not fixture:
         cm = build.parse_cmake(prog.root or build.repo_root())
         want = int(cm["default_cache"]) if (cfg is None or cfg.cache_size is None) else int(cfg.cache_size)
-    caches = [s for s in prog.statics.values() if "LRUCache<" in s["ctype"]]
+    caches = [s for s in prog.statics.values() if "LRUCache<" in s["ctype"] and _holds_plans(prog, s["ctype"], fixture)]
     if not caches:
         res.broken.append("anchor vanished: no LRUCache object with static storage duration")
     for s in sorted(caches, key=lambda s: (s["file"], s["line"])):
